@@ -32,7 +32,7 @@ func Env(extra ...string) []string {
 	for _, kv := range os.Environ() {
 		k := kv[:strings.IndexByte(kv+"=", '=')]
 		switch k {
-		case "PATH", "GOTOOLCHAIN", "GOPROXY", "GOFLAGS", "GOSUMDB", "GOWORK", "GOROOT", "GOMAXPROCS", "GODEBUG", "GORACE":
+		case "PATH", "GOTOOLCHAIN", "GOPROXY", "GOFLAGS", "GOSUMDB", "GOWORK", "GOROOT", "GOMAXPROCS", "GODEBUG", "GORACE", "GOCACHE":
 			continue
 		}
 		keep = append(keep, kv)
@@ -44,6 +44,9 @@ func Env(extra ...string) []string {
 		"GOTOOLCHAIN=local", "GOPROXY=off", "GOFLAGS=-mod=mod", "GOSUMDB=off", "GOWORK=off",
 		"CGO_ENABLED=1",
 	)
+	if gc := os.Getenv("VERIF_GOCACHE"); gc != "" {
+		keep = append(keep, "GOCACHE="+gc)
+	}
 	return append(keep, extra...)
 }
 
@@ -174,4 +177,19 @@ func ModCache() string {
 	}
 	home, _ := os.UserHomeDir()
 	return filepath.Join(home, "go", "pkg", "mod")
+}
+
+// CloneCache makes dst a hard-link clone of the warm base build cache (instant, no space):
+// Go's cache never rewrites an entry in place, so clones may diverge freely. Without a base
+// cache dst is just created empty (first builds are slow then, nothing else changes).
+func CloneCache(base, dst string) error {
+	_ = os.RemoveAll(dst)
+	if st, err := os.Stat(base); err == nil && st.IsDir() {
+		r := Run(Cmd{Args: []string{"cp", "-al", base, dst}, Timeout: 5 * time.Minute})
+		if r.Exit == 0 {
+			return nil
+		}
+		_ = os.RemoveAll(dst)
+	}
+	return os.MkdirAll(dst, 0o755)
 }
